@@ -294,6 +294,66 @@ def step(ctx, case):
     ctx.check('display stays the only incarnation of id 1', conn.db.get(1) == [conn.display] and conn.display.alive and conn.wl_display() is conn.display)
 
 
+def annotation(ctx, case):
+    """what the user sees: the delete_id line, and only it, carries ` -- type@id+letters.destroyed after N.NNNNs` with the lifespan"""
+    import re
+    from core import wl, matcher, util
+    from core.connection_manager import ConnectionManager
+    from core.output import Output
+    from frontends.tui.controller import Controller
+    from backends.libwayland_debug_output import parse
+    from lib.stubs import RecStream
+    _setup()
+    util.color_output = False
+    wl.Message.base_time = None
+    side = ctx.choose(['client', 'server'], 'side')            # delete_id received (client log) or sent (server log)
+    t_create = ctx.choose([1000000, 1000250, 2500000], 't_create')     # microseconds
+    gap = ctx.choose([0, 200, 1500000, 123456789], 'gap')
+    first_is_creator = ctx.choose([True, False], 'creator_is_first_line')
+    reuse = ctx.choose([False, True], 'id_reused_before')
+    def stamp(us):
+        return '%d.%03d' % (us // 1000, us % 1000)
+    arrow_req = '  -> ' if side == 'client' else ' '
+    arrow_ev = ' ' if side == 'client' else '  -> '
+    lines = []
+    if not first_is_creator:
+        lines.append('[%s]%swl_display@1.get_registry(new id wl_registry@2)' % (stamp(t_create - 500), arrow_req))
+    if reuse:
+        lines.append('[%s]%swl_display@1.sync(new id wl_callback@3)' % (stamp(t_create - 300 if not first_is_creator else t_create), arrow_req))
+        lines.append('[%s]%swl_display@1.delete_id(3)' % (stamp(t_create - 200 if not first_is_creator else t_create), arrow_ev))
+    lines.append('[%s]%swl_display@1.sync(new id wl_callback@3)' % (stamp(t_create), arrow_req))
+    lines.append('[%s]%swl_callback@3.done(7)' % (stamp(t_create + gap // 2), arrow_ev))
+    lines.append('[%s]%swl_display@1.delete_id(3)' % (stamp(t_create + gap), arrow_ev))
+    lines.append('[%s]%swl_display@1.sync(new id wl_callback@3)' % (stamp(t_create + gap + 100), arrow_req))
+
+    class F:
+        i = 0
+        def readline(self):
+            F.i += 1
+            return lines[F.i - 1] + '\n' if F.i <= len(lines) else ''
+    out, err = RecStream(), RecStream()
+    output = Output(False, True, out, err)
+    mgr = ConnectionManager()
+    Controller(output, mgr, matcher.always, matcher.never)
+    parse.into_sink(F(), output, mgr)
+    msg_lines = [s for s in out.items if re.match(r'^\s*-?\d+\.\d{4} ', s)]
+    ctx.check('one output line per message', len(msg_lines) == len(lines))
+    if len(msg_lines) != len(lines):
+        return
+    letter = 'b' if reuse else 'a'
+    for src, shown in zip(lines, msg_lines):
+        if 'delete_id' in src:
+            is_last_delete = src is lines[-2]
+            m = re.search(r' -- wl_callback@3([a-z]+)\.destroyed after (\d+\.\d{4})s', shown)
+            ctx.check('the delete_id line is annotated with the destroyed object and a lifespan', m is not None)
+            if m and is_last_delete:
+                ctx.check('annotated with exactly the incarnation it destroyed', m.group(1) == letter)
+                ctx.check('lifespan = time of the destroying message - time of the creating message', m.group(2) == '%0.4f' % (gap / 1e6))
+        else:
+            ctx.check('no other line carries a destruction annotation', ' -- ' not in shown and 'destroyed' not in shown)
+    ctx.check('the id is usable again afterwards: next incarnation letter', ('wl_callback@3' + chr(ord(letter) + 1)) in msg_lines[-1])
+
+
 def twin(ctx, case):
     step(ctx, case)
     ctx.check('reachability twin (must be violated)', False)
@@ -339,8 +399,10 @@ def make_obligations(pid, tier):
               'times arbitrary non-decreasing integers' % '/'.join(KINDS))
     outside = ('ill-formed steps (type clash between a mention and the table, delete_id of an unknown / already deleted id or of the display, new id <= 1, '
                'bind with other than 4 arguments) are assumed away; floating-point times (integers used); more table ids / incarnations / arguments than the bound')
+    extra = [Ob('destruction-annotation', 'symx', 'rendered delete_id line: annotated with exactly the destroyed incarnation and lifespan, no other line annotated (client and server side logs, id reuse, zero and long lifespans)',
+                FUNCS + ['core.wl.message:Message.__str__'], '2 sides x 3 creation times x 4 lifespans x creator first or not x id reused before or not', annotation, cases=[None])] if pid == 'C03' else []
     obs = [Ob('object-table-step', 'symx', 'Inv /\\ one ConnectionImpl.message step => spec /\\ Inv (histories of any length by induction)',
               FUNCS, bounds, step, cases=cases, stubs=STUBS, outside=outside, budget_s=1500 if tier == 'quick' else 6000),
            Ob('object-table-step-reachable', 'symx', 'reachability twin of the step obligation', FUNCS, bounds, twin,
-              cases=[(pid, 'other', ('new', 'obj'), 1, 2)], stubs=STUBS, expect_cex=True)]
+              cases=[(pid, 'other', ('new', 'obj'), 1, 2)], stubs=STUBS, expect_cex=True)] + extra
     return obs
